@@ -56,15 +56,8 @@ def run(ctx, F, cg):
     dropped, total = dropped_results(F, c04.ERR_FNS, module_prefix="samyama::query::executor::")
     n = 0
     for p, r, c, m, k in dropped:
-        exc = [why for (fn, callee), why in c04.DROP_OK.items() if fn in p and callee == m]
-        if exc:
+        if c04.reviewed_drop(F, p, r, c, m):
             continue
-        if m in ("delete_node", "delete_edge"):
-            bb = Body(F.mir(p), r)
-            errb = {i for i, j, pl, rv, line, exp in bb.stmts() if rv[0] == "agg" and rv[1].endswith("Result::Err")} | {cc.bb for cc in bb.calls() if cc.path.endswith("from_residual")}
-            rets = bb.ret_blocks()
-            if c.target is not None and rets and all(bb.must_pass(c.target, rb, errb) for rb in rets if rb in bb.reachable(c.target)):
-                continue
         n += 1
         short = p.replace("samyama::query::executor::operator::", "").replace("samyama::query::executor::", "")
         ctx.violation("R04b", "%s|%s|%d" % (short, m, k), where(r, c.line), "the Result of GraphStore::%s is discarded" % m)
